@@ -1,10 +1,10 @@
 #!/usr/bin/env python3
 """keep_mutant.py <Cxx> <i> '<confirm RESULT line>'  — copies a confirmed seeded change into /verif/seeded/<Cxx>-<i>/"""
-import json, re, shutil, sys
+import json, os, re, shutil, sys
 from pathlib import Path
 pid, i, confirm = sys.argv[1], sys.argv[2], sys.argv[3]
-src = Path(f"/tmp/wt/{pid}/_out")
-dst = Path(f"/verif/seeded/{pid}-{i}")
+src = Path(os.environ.get("WT_ROOT", "/tmp/wt")) / pid / "_out"
+dst = Path(f"/verif/seeded/{pid}-{os.environ.get('ROUND', '')}{i}")
 dst.mkdir(parents=True, exist_ok=True)
 shutil.copy(src / f"mutant{i}.diff", dst / "patch.diff")
 for f in src.iterdir():
